@@ -30,10 +30,16 @@ func newNamespace(namespace string) (sp *Namespace)
   ensures sp != nil && fresh(sp) && sp.namespace == namespace
   ensures a-new-namespace-has-no-pipelines: forall n string :: !pl(sp, n)
 
+// a namespace is dropped only when it holds neither a traffic gate nor a pipeline any more
+pred anyIn(m int) := exists t, k int :: smHas[m][t][k]
 func (tc *TrafficController) _cleanSpace(namespace string)
-  trusted
-  requires tc != nil
+  flag frame=unchecked
+  requires tc != nil && tc.namespaces != nil && (namespace in tc.namespaces) && tc.namespaces[namespace] != nil
   modifies entries(tc.namespaces)
+  ensures a-namespace-that-still-holds-a-traffic-gate-is-kept: old(anyIn(addr(tc.namespaces[namespace].trafficGates))) ==> (namespace in tc.namespaces) && tc.namespaces[namespace] == old(tc.namespaces[namespace])
+  ensures a-namespace-that-still-holds-a-pipeline-is-kept: old(anyIn(addr(tc.namespaces[namespace].pipelines))) ==> (namespace in tc.namespaces) && tc.namespaces[namespace] == old(tc.namespaces[namespace])
+  ensures an-empty-namespace-is-dropped: old(!anyIn(addr(tc.namespaces[namespace].trafficGates)) && !anyIn(addr(tc.namespaces[namespace].pipelines))) ==> !(namespace in tc.namespaces)
+  ensures other-namespaces-are-untouched: forall n string :: n != namespace ==> ((n in tc.namespaces) <==> old(n in tc.namespaces)) && tc.namespaces[n] == old(tc.namespaces[n])
 
 // ApplyPipeline: create, update or leave alone exactly one pipeline; nothing else changes
 func (tc *TrafficController) ApplyPipeline(namespace string, entity *supervisor.ObjectEntity) (res *supervisor.ObjectEntity, err error)
